@@ -357,6 +357,21 @@ namespace bluetoe {
             using char_t = characteristic< Options... >;
             static constexpr bool requires_encryption = characteristic_requires_encryption< char_t, Service, Server >::value;
 
+            static attribute_access_result access( attribute_access_arguments& args, std::size_t attribute_index )
+            {
+                if ( args.type != attribute_access_type::compare_128bit_uuid )
+                    return char_t::value_type::template characteristic_value_access< Server, ClientCharacteristicIndex, requires_encryption >( args, attribute_index );
+
+                // the (maybe generated) UUID is part of the characteristic declaration, which is the attribute in front of the value
+                std::uint8_t declaration[ 3 + 16 ];
+                auto read = attribute_access_arguments::read( declaration, 0 );
+                Server::attribute_at( attribute_index - 1 ).access( read, attribute_index - 1 );
+
+                return read.buffer_size == sizeof( declaration ) && std::equal( &declaration[ 3 ], &declaration[ 3 + 16 ], args.buffer )
+                    ? attribute_access_result::uuid_equal
+                    : attribute_access_result::request_not_supported;
+            }
+
             static const attribute attr;
         };
 
@@ -365,7 +380,7 @@ namespace bluetoe {
             uuid::is_128bit
                 ? bits( details::gatt_uuids::internal_128bit_uuid )
                 : uuid::as_16bit(),
-            &characteristic< Options... >::value_type::template characteristic_value_access< Server, ClientCharacteristicIndex, requires_encryption >
+            &generate_attribute< std::tuple< characteristic_value_declaration_parameter, AttrOptions... >, CCCDIndices, ClientCharacteristicIndex, Service, Server, Options... >::access
         };
 
         /*
